@@ -343,7 +343,17 @@ func (fr *frame) applyContract(x ssa.Instruction, sig *types.Signature, fc *Func
 		if okArgs {
 			rs := fr.w.sortOf(sig.Results().At(0).Type())
 			fn := "ext!" + smtName(fc.Key)
-			vc.declareFun(fn, ss, rs)
+			if d := fc.Opts["defines"]; d != "" {
+				// the function IS the meaning of the (uninterpreted) spec function d
+				if dsig, err := fr.w.specSig(d); err == nil && dsig.sf.Uninter {
+					fn = dsig.name
+					vc.used.specs[d] = true
+				} else {
+					vc.errorf("contract of %s: defines=%s is not an uninterpreted spec function", cname, d)
+				}
+			} else {
+				vc.declareFun(fn, ss, rs)
+			}
 			var t *Term
 			if len(as) == 0 {
 				t = Sym(fn, rs)
